@@ -131,6 +131,14 @@ class ExpressionTransformer:
         self.nsp = nsp
 
     def get_pending(self, node: expr) -> PendingExprGeneric:
+        if isinstance(node, (Yield, YieldFrom, Await)) or (
+            isinstance(node, comprehension) and node.is_async
+        ):
+            # a lambda can be neither a generator nor a coroutine
+            raise RuntimeError(
+                f"At line {getattr(node, 'lineno', '?')}: "
+                f"Unable to convert node '{type(node).__name__}'"
+            )
         if isinstance(node, NamedExpr):
             return PendingNamedExpr(node, self.nsp)
         elif isinstance(node, Name):
